@@ -131,6 +131,16 @@ class TokenManager(interfaces.RequestInterface, interfaces.TokenManager):
         def on_event(ev):
             if ev.message is not None:
                 m = ev.message
+                if m.code is None or not m.code.is_response():
+                    # Sent as it is, such a message would reach the peer as
+                    # a new request (or an empty message) that happens to
+                    # carry the token, and the request would stay
+                    # unanswered. Raising this into whoever produced the
+                    # event makes it a failed rendering.
+                    raise ValueError(
+                        "Only a response can be sent in response to a request, not %r"
+                        % (m,)
+                    )
                 # FIXME: should this code warn if token or remote are set?
                 m.token = request.token
                 m.remote = request.remote.as_response_address()
